@@ -318,11 +318,8 @@ def prov_ring_edges(repo, tier="quick"):
      obs.append(ob_fail(oid, fi, construct="no `pending ring order = table[token]`", instance="symbol", reason="ring bond order symbols are not read")))
     # after each handler the pending order is reset to the default
     from .exc import sib_ring_handlers
-    handlers = []
-    for n in cfg.nodes:
-        if n.kind == "if" and isinstance(n.ast.test, ast.Compare) and len(n.ast.test.ops) == 1 and isinstance(n.ast.test.ops[0], (ast.In, ast.NotIn)) and \
-                isinstance(n.ast.test.comparators[0], ast.Name) and n.ast.test.comparators[0].id == name:
-            handlers.append(n)
+    from .exc import ring_handlers
+    handlers = ring_handlers(fi, name)
     loop = enclosing_loops(fi, handlers[0].id)[0] if handlers else None
     default_defs = {d.node for d in resets if enclosing_loops(fi, d.node) and enclosing_loops(fi, d.node)[0].id == (loop.id if loop else -1)}
     for h in handlers:
